@@ -31,12 +31,15 @@ class SimClock:
         self.epoch = 1_600_000_000.0
         self.on_sleep = None  # callback(duration) used by blocking sleeps
         self.reads = 0
+        self.sleeps = 0       # blocking sleeps since the last iteration start
+        self.sleep_cap = 4000
 
     def reset(self, epoch=1_600_000_000.0):
         self.t = 0.0
         self.epoch = float(epoch)
         self.on_sleep = None
         self.reads = 0
+        self.sleeps = 0
 
     def time(self):
         self.reads += 1
@@ -47,6 +50,13 @@ class SimClock:
         # subprocesses) progress meanwhile -> advance simulated time.
         if secs and secs > 0:
             self.t += float(secs)
+        self.sleeps += 1
+        if self.sleep_cap and self.sleeps > self.sleep_cap:
+            from .core import SimLivelock
+            self.sleeps = 0
+            raise SimLivelock(
+                f'{self.sleep_cap} blocking sleeps within one main-loop '
+                'iteration')
         if self.on_sleep is not None:
             self.on_sleep(secs)
 
